@@ -147,3 +147,38 @@ func callsGuardedPre(ct *Contracts, fn *ssa.Function) bool {
 	}
 	return false
 }
+
+// interfere (lock-discipline mode only): acquiring a lock that this goroutine did not already hold is the point
+// where other goroutines' updates become visible: every field the lock guards gets an unconstrained value.  Facts
+// established under an EARLIER critical section (a look-up that missed, a length that was read) therefore do not
+// carry over - which is what makes a check-then-act split across two critical sections fail the precondition of
+// the act (e.g. AppendLabelValue's "the key is not in the index").
+func (f *Frame) interfere(lockLoc *Loc, heldW, heldR, idx string) {
+	e := f.e
+	if !strings.HasPrefix(lockLoc.Comp, "H.") {
+		return
+	}
+	lc := strings.TrimPrefix(lockLoc.Comp, "H.") // "metrics.Metric.RWMutex"
+	dot := strings.LastIndex(lc, ".")
+	if dot < 0 {
+		return
+	}
+	strct, lockField := lc[:dot], lc[dot+1:]
+	already := or(heldW, heldR)
+	for key, kind := range e.ct.Guards {
+		if kind != lockField || !strings.HasPrefix(key, strct+".") || strings.Count(key, ".") != strings.Count(strct, ".")+1 {
+			continue
+		}
+		comp := "H." + key
+		srt, ok := e.compSort[comp]
+		if !ok {
+			srt = e.fieldCompSort(comp, f.fn.Pkg.Pkg)
+			if srt == "" {
+				continue
+			}
+		}
+		cur := e.comp(f.st, comp, srt)
+		fresh := e.declare("interfere."+key, arrayElemSort(srt))
+		e.setComp(f.st, comp, store(cur, idx, ite(already, sel(cur, idx), fresh)))
+	}
+}
